@@ -6,7 +6,7 @@
 //	codec case -seed S -idx I [-mal] [-maxlen L] regenerate exactly one case of such a run
 //	codec dec  <kind> <dialect> <hex>            decode one byte string (D line)
 //
-// E line: E <idx> <kind> <dialect> <producible 0/1> <exact 0/1> <value> <go bytes hex | ERR | PANIC:..> <go decode of those bytes>
+// E line: E <idx> <kind> <dialect> <producible 0/1> <exact 0/1> <value> <go bytes hex | ERR | PANIC:..> <go decode of those bytes> <behaviour original/restored | ->
 // D line: D <idx> <kind> <dialect> <hex> <class> <value|-> <rest> <alloc bytes> <mutation>
 // class: Ok | Err | Panic | ErrPattern (wire decoding fine, topic pattern refused)
 package main
@@ -253,7 +253,7 @@ func (g *gen) frame() *amqp.Frame {
 
 func (g *gen) message() *amqp.Message {
 	h := g.header()
-	m := &amqp.Message{ID: g.u64(64), Header: h, Exchange: string(g.bytes(255)), RoutingKey: string(g.bytes(255))}
+	m := &amqp.Message{ID: g.u64(64), Header: h, Exchange: string(g.bytes(255)), RoutingKey: string(g.bytes(255)), DeliveryCount: uint32(g.u64(32))}
 	n := g.r.Intn(4)
 	var total uint64
 	for i := 0; i < n; i++ {
@@ -453,6 +453,7 @@ func encodeCase(g *gen, kind string) (value string, enc string, raw []byte) {
 		if e2 != nil {
 			return value, "ERRNEW", nil
 		}
+		lastBinding, lastBindingArgs = b, &t
 		var data []byte
 		data, err = b.Marshal(p)
 		buf.Write(data)
@@ -485,6 +486,68 @@ func encodeCase(g *gen, kind string) (value string, enc string, raw []byte) {
 	out := make([]byte, buf.Len())
 	copy(out, buf.Bytes())
 	return value, hex.EncodeToString(out), out
+}
+
+// ---------------------------------------------------------------- behaviour of a stored binding
+var lastBinding *binding.Binding
+var lastBindingArgs *amqp.Table
+
+// bindingBehaviour: what the binding routes, as a bit string over fixed probes (topic / direct / fanout keys derived
+// from its own routing key, and header tables derived from its own arguments). A binding restored from its stored
+// form must answer every probe like the binding it was made from.
+func bindingBehaviour(b *binding.Binding, args *amqp.Table) (out string) {
+	defer func() {
+		if r := recover(); r != nil {
+			out += "!PANIC:" + strings.ReplaceAll(strings.ReplaceAll(fmt.Sprint(r), "\t", " "), "\n", " ")
+		}
+	}()
+	rk, ex := b.RoutingKey, b.Exchange
+	keys := []string{rk, "", "a", "bb", "a.bb", "stock", "a.stock.x1", "bb.a.a", "x1",
+		strings.ReplaceAll(strings.ReplaceAll(rk, "*", "a"), "#", "x1.bb"),
+		strings.ReplaceAll(strings.ReplaceAll(rk, "*", "stock"), "#", "a"),
+		strings.Trim(strings.ReplaceAll(strings.ReplaceAll(strings.ReplaceAll(rk, "#.", ""), ".#", ""), "*", "x1"), "#")}
+	bit := func(v bool) string {
+		if v {
+			return "1"
+		}
+		return "0"
+	}
+	for _, k := range keys {
+		out += bit(b.MatchTopic(ex, k)) + bit(b.MatchDirect(ex, k))
+	}
+	out += bit(b.MatchFanout(ex)) + bit(b.MatchFanout(ex+"x")) + bit(b.MatchTopic(ex+"x", rk))
+	// header probes: the arguments themselves, nothing, the arguments with one value changed, with one key missing
+	full := amqp.Table{}
+	for k, v := range *args {
+		full[k] = v
+	}
+	changed, missing := amqp.Table{}, amqp.Table{}
+	first := true
+	ks := make([]string, 0, len(full))
+	for k := range full {
+		ks = append(ks, k)
+	}
+	sortStrings(ks)
+	for _, k := range ks {
+		if first {
+			changed[k] = "changed by the probe"
+			first = false
+			continue
+		}
+		changed[k], missing[k] = full[k], full[k]
+	}
+	for _, h := range []*amqp.Table{&full, {}, &changed, &missing, nil} {
+		out += bit(b.MatchHeader(ex, h))
+	}
+	return out
+}
+
+func sortStrings(a []string) {
+	for i := 1; i < len(a); i++ {
+		for j := i; j > 0 && a[j] < a[j-1]; j-- {
+			a[j], a[j-1] = a[j-1], a[j]
+		}
+	}
 }
 
 // ---------------------------------------------------------------- mutation
@@ -600,7 +663,24 @@ func eCase(seed uint64, idx int) string {
 	if exact {
 		e = 1
 	}
-	return fmt.Sprintf("E\t%d\t%s\t%s\t%d\t%d\t%s\t%s\t%s", idx, kind, d, p, e, value, enc, godec)
+	beh := "-"
+	if kind == "binding" && raw != nil && lastBinding != nil {
+		// behaviour of the original binding / of the binding restored from the stored bytes
+		restored := &binding.Binding{}
+		// the probe headers are a separate copy of the arguments (a table compared with itself short-cuts NaN != NaN)
+		hb := &bytes.Buffer{}
+		if amqp.WriteTable(hb, lastBindingArgs, proto(d)) == nil {
+			if h, e := amqp.ReadTable(bytes.NewReader(hb.Bytes()), proto(d)); e == nil {
+				lastBindingArgs = h
+			}
+		}
+		if err := restored.Unmarshal(raw, proto(d)); err == nil {
+			beh = bindingBehaviour(lastBinding, lastBindingArgs) + "/" + bindingBehaviour(restored, lastBindingArgs)
+		} else {
+			beh = bindingBehaviour(lastBinding, lastBindingArgs) + "/ERR"
+		}
+	}
+	return fmt.Sprintf("E\t%d\t%s\t%s\t%d\t%d\t%s\t%s\t%s\t%s", idx, kind, d, p, e, value, enc, godec, beh)
 }
 
 func dLine(idx int, kind, d string, data []byte, mut string) string {
